@@ -1,6 +1,6 @@
 (* C13 - Counts stay exact under concurrent threads and interleaved tasks.  Statements only. *)
 From Coq Require Import List ZArith Bool.
-From LP Require Import Trace.ZMap Trace.Concrete Trace.Abstract Trace.AbstractFacts Trace.Main Trace.Threads Trace.ThreadsMain.
+From LP Require Import Trace.GenRun Trace.ZMap Trace.Concrete Trace.Abstract Trace.AbstractFacts Trace.Main Trace.Threads Trace.ThreadsMain.
 Import ListNotations.
 Open Scope Z_scope.
 
@@ -57,3 +57,10 @@ Theorem C13_nonvacuous :
   /\ no_collision thr_codes (thr_regs ++ thr_body1) = true
   /\ in_flight thr_codes 0 (thr_regs ++ thr_body1) 0 2 = 0.
 Proof. exact threads_example_short. Qed.
+
+(* The tie to the source: the machine regenerated from line_profiler/_line_profiler.pyx on this run (Gen/TraceCore.v:
+   the trace callback translated statement by statement, compute_line_hash, enable/disable, the registration loop and
+   get_stats read off the source) computes exactly `run`, the model the theorems above are about. *)
+Theorem C13_model_is_generated_core :
+  forall codes tick start ops, gen_run codes tick start ops = run codes tick start ops.
+Proof. exact gen_run_eq. Qed.
